@@ -205,8 +205,28 @@ def run_property(prop_id, modname, tier, seed, deadline_s=None):
         pool = ctx.Pool(nproc, initializer=_worker_init, initargs=(modname, None), maxtasksperchild=None)
         it = pool.imap_unordered(_worker_run, units, chunksize=1)
     done_units = 0
+
+    def results():
+        # poll, so that the wall-clock budget is honoured even while every worker is busy with a long unit
+        if pool is None:
+            for p_ in it:
+                yield p_
+            return
+        while True:
+            try:
+                yield it.next(timeout=5)
+            except mp.TimeoutError:
+                if budget and time.time() - t0 > budget:
+                    yield None
+                    return
+            except StopIteration:
+                return
+
     try:
-        for part in it:
+        for part in results():
+            if part is None:
+                cap_hit = True
+                break
             done_units += 1
             if 'harness_error' in part.extra:
                 harness_error = part.extra.pop('harness_error')
